@@ -179,6 +179,47 @@ func c20tRandomCP(r *vh.Rand) int64 {
 
 func c20tGen(r *vh.Rand, tier string, n int, emit func(any)) {
 	src := c20tSource()
+	// the exhaustive Go-side pass (every tier, see c20_full.go): all code points through the shaper's lookups and the
+	// vertical orientation of their script and of every listed script; every Script constant and a few other values
+	// through LookupVerticalOrientation; every one-byte edit of every script tag through ParseScript.  What it finds
+	// becomes ordinary cases, whose run repeats the comparison and reports it.
+	for _, x := range c20ScanAll(c20tCheckCP) {
+		emit(c20tInput{K: "cp", R: x.a})
+	}
+	{
+		var consts []uint32
+		for _, s := range src.scripts {
+			consts = append(consts, s.Val)
+		}
+		found := 0
+		for _, sc := range append(append([]uint32{}, consts...), 0, 1, 0xffffffff, uint32(language.Latin)+1, uint32(language.Latin)^0x20000000,
+			uint32(language.Hangul)+1, uint32(language.Hangul)-1, uint32(language.Han)|0x20000000) {
+			if fn, _ := c20tCheckVO(language.Script(sc)); fn != "" && found < 6 {
+				found++
+				emit(c20tInput{K: "vo", Sc: sc, R: 0x41})
+			}
+		}
+		for _, s := range c20tScanScripts(consts) {
+			emit(c20tInput{K: "script", S: s})
+		}
+	}
+	// every byte value inserted at every position of a Script constant's tag and substituted in its lower-case
+	// spelling, through the Coq model as well
+	{
+		tag := []byte(language.Script(src.scripts[r.Intn(len(src.scripts))].Val).String())
+		for pos := 0; pos <= len(tag); pos++ {
+			for c := 0; c < 256; c++ {
+				emit(c20tInput{K: "script", S: append(append(append([]byte{}, tag[:pos]...), byte(c)), tag[pos:]...)})
+			}
+		}
+		for pos := 0; pos < len(tag); pos++ {
+			for c := 0; c < 256; c++ {
+				s := []byte{tag[0] | 0x20, tag[1], tag[2], tag[3]}
+				s[pos] = byte(c)
+				emit(c20tInput{K: "script", S: s})
+			}
+		}
+	}
 	// every Script constant: its tag, the tag in lower / upper case, the tag with a suffix
 	for _, s := range src.scripts {
 		tag := language.Script(s.Val).String()
@@ -293,12 +334,6 @@ func c20tGen(r *vh.Rand, tier string, n int, emit func(any)) {
 			}
 		}
 	}
-	// thorough / search: sweep of all 0x110000 code points on the Go side
-	if tier != "quick" {
-		for lo := int64(0); lo < 0x110000; lo += 0x8000 {
-			emit(c20tInput{K: "sweep", Lo: lo, Hi: lo + 0x8000})
-		}
-	}
 	// code points
 	pool := c20tPoolOrdered(ajk)
 	npool := len(pool)
@@ -340,7 +375,7 @@ func c20tRun(o *vh.Out, inAny any) {
 	var term, key string
 	class := in.K
 	var panicked any
-	sweepFail := ""
+	sweepFail, goFail := "", ""
 	func() {
 		defer func() { panicked = recover() }()
 		switch in.K {
@@ -353,6 +388,7 @@ func c20tRun(o *vh.Out, inAny any) {
 				key = term
 				class = "script:ok"
 			}
+			_, goFail = c20tCheckScript(in.S)
 		case "cp":
 			r := rune(int32(in.R))
 			gc := hb.VerifC20GeneralCategory(r)
@@ -386,6 +422,7 @@ func c20tRun(o *vh.Out, inAny any) {
 			if !vo {
 				o.Count("cp:upright")
 			}
+			_, goFail = c20tCheckCP(r)
 		case "vo":
 			r := rune(int32(in.R))
 			sv := ucd.LookupVerticalOrientation(language.Script(in.Sc))
@@ -395,6 +432,9 @@ func c20tRun(o *vh.Out, inAny any) {
 			key = term
 			if f.Exceptions != nil {
 				class = "vo:exceptions"
+			}
+			if _, goFail = c20tCheckVO(language.Script(in.Sc)); goFail == "" {
+				_, goFail = c20tCheckOrientation(language.Script(in.Sc), r)
 			}
 		case "join":
 			u := rune(int32(in.R))
@@ -440,9 +480,12 @@ func c20tRun(o *vh.Out, inAny any) {
 	if sweepFail != "" {
 		o.Fail(idx, "sweep", sweepFail)
 	}
+	if goFail != "" {
+		o.Fail(idx, "oracle", goFail)
+	}
 }
 
-// ---- exhaustive sweep (thorough): the implementation on every code point against a plain walk of the tables ----
+// ---- the tables expanded by a plain walk (compared with the lookups on every code point: c20_full.go) ----
 
 type c20tExpected struct {
 	gc         []int16 // class id per code point, -1 none, -3 in two classes
@@ -513,97 +556,12 @@ func c20tExpected_() *c20tExpected {
 	return e
 }
 
+// c20tSweep checks every code point of [lo, hi) (stored "sweep" inputs of earlier runs; the generator now scans all
+// code points on every tier, see c20_full.go) and returns the first disagreement ("" if none).
 func c20tSweep(lo, hi int64) string {
-	e := c20tExpected_()
-	aj := hb.VerifC20ArabicJoinings()
-	vos := ucd.VerifC20UprightOrMixedScripts()
-	jmap := map[byte]uint8{'U': 0, 'L': 1, 'R': 2, 'D': 3, 'a': 4, 'd': 5, 'T': 7, 'C': 3}
 	for x := lo; x < hi && x < 0x110000; x++ {
-		r := rune(x)
-		gc := hb.VerifC20GeneralCategory(r)
-		want := int64(e.gc[x])
-		if want == -1 {
-			want = 2
-		}
-		if int64(gc) != want {
-			return fmt.Sprintf("U+%04X: generalCategory = %d, linear scan of the tables gives %d (-3: in two classes)", x, gc, want)
-		}
-		wj := uint8(0)
-		if gc == 1 || gc == 11 || gc == 12 {
-			wj = 7
-		}
-		if j, ok := aj[r]; ok {
-			if t, ok := jmap[j]; ok {
-				wj = t
-			}
-		}
-		if got := hb.VerifC20GetJoiningType(r, gc); got != wj {
-			return fmt.Sprintf("U+%04X: getJoiningType = %d, table scan gives %d", x, got, wj)
-		}
-		if got := int32(hb.VerifC20IndicGetCategories(r)); got != e.indic[x] {
-			return fmt.Sprintf("U+%04X: indicGetCategories = %#x, linear scan of the clauses gives %#x (-2: index outside the table)", x, got, e.indic[x])
-		}
-		if got := int32(hb.VerifC20GetUSECategory(r)); got != e.use[x] {
-			return fmt.Sprintf("U+%04X: getUSECategory = %d, linear scan of the clauses gives %d (-2: index outside the table)", x, got, e.use[x])
-		}
-		if got, want := hb.VerifC20IsExtendedPictographic(r), e.ep[x] == 0; got != want {
-			return fmt.Sprintf("U+%04X: isExtendedPictographic = %v, table walk gives %v", x, got, want)
-		}
-		if m, c := hb.VerifC20ModifiedCombiningClass(r), ucd.LookupCombiningClass(r); (m == 0) != (c == 0) {
-			return fmt.Sprintf("U+%04X: modified combining class %d for combining class %d", x, m, c)
-		}
-		sc := language.LookupScript(r)
-		if (sc != language.Unknown) != e.assigned[x] {
-			return fmt.Sprintf("U+%04X: LookupScript = %s, table walk says assigned = %v", x, sc, e.assigned[x])
-		}
-		if unassignedLike := gc == 2 || gc == 3 || gc == 4; (sc == language.Unknown) != unassignedLike {
-			return fmt.Sprintf("U+%04X: script %s but general category %d", x, sc, gc)
-		}
-		if s2, err := language.ParseScript(sc.String()); err != nil || s2 != sc {
-			return fmt.Sprintf("U+%04X: script %08x does not round-trip through its tag (%08x, %v)", x, uint32(sc), uint32(s2), err)
-		}
-		// vertical orientation: the script of the code point, and every listed script
-		check := func(s language.Script) string {
-			want := true
-			for _, v := range vos {
-				if v.Script == s {
-					want = v.IsMainSideways
-					if v.Exceptions != nil {
-						in := false
-						for _, rg := range v.Exceptions.R16 {
-							if x >= int64(rg.Lo) && x <= int64(rg.Hi) && (x-int64(rg.Lo))%int64(rg.Stride) == 0 {
-								in = true
-							}
-						}
-						for _, rg := range v.Exceptions.R32 {
-							if x >= int64(rg.Lo) && x <= int64(rg.Hi) && (x-int64(rg.Lo))%int64(rg.Stride) == 0 {
-								in = true
-							}
-						}
-						if in {
-							want = !want
-							if sc != s {
-								return fmt.Sprintf("U+%04X is an exception of script %s but has script %s", x, s, sc)
-							}
-						}
-					}
-					break
-				}
-			}
-			if got := ucd.LookupVerticalOrientation(s).Orientation(r); got != want {
-				return fmt.Sprintf("U+%04X: vertical orientation for script %s is sideways=%v, table walk gives %v", x, s, got, want)
-			}
-			return ""
-		}
-		if msg := check(sc); msg != "" {
+		if _, msg := c20tCheckCP(rune(x)); msg != "" {
 			return msg
-		}
-		for _, v := range vos {
-			if v.Exceptions != nil {
-				if msg := check(v.Script); msg != "" {
-					return msg
-				}
-			}
 		}
 	}
 	return ""
